@@ -48,6 +48,8 @@ func hexOrDash(b []byte) string {
 //
 //	"h <id> key=<hex|-> raw=<hex|->"            advertisement handling
 //	"m <id> addr=<hex of the address string> macs=<hex|->,<hex>,..."   device lookup
+var handleSeq int
+
 func runBleHandler() {
 	f, err := os.Open(os.Args[2])
 	if err != nil {
@@ -102,6 +104,19 @@ func runBleHandler() {
 			key, raw := dec(kv["key"]), dec(kv["raw"])
 			debugFlag = kv["dbg"] == "1"
 			rawCopy := append([]byte{}, raw...)
+			// every other advertisement is handed over as the front part of a larger receive buffer (spare
+			// capacity, poisoned): an append on a sub-slice of the payload then works in place
+			handleSeq++
+			spare := 0
+			if handleSeq%2 == 0 {
+				spare = 64
+			}
+			big := make([]byte, len(raw)+spare)
+			copy(big, raw)
+			for i := len(raw); i < len(big); i++ {
+				big[i] = 0xA5
+			}
+			rawCopy = big[:len(raw)]
 			var buf bytes.Buffer
 			log.SetOutput(&buf)
 			panicked := false
@@ -111,7 +126,7 @@ func runBleHandler() {
 						panicked = true
 					}
 				}()
-				instance.VerifHandle(fakeDev{name: "dev", key: key}, rawCopy[:len(rawCopy):len(rawCopy)])
+				instance.VerifHandle(fakeDev{name: "dev", key: key}, rawCopy)
 			}()
 			logs := buf.String()
 			outcome := "other"
@@ -187,6 +202,8 @@ func runBleHandler() {
 			if !bytes.Equal(raw, rawCopy) {
 				mutated = 1
 			}
+			// (PKCS7Padding appends the padding behind the payload, i.e. into spare capacity when there is some: the
+			// property does not speak about that, so the spare region is not compared)
 			fmt.Fprintf(out, "h %s key=%s raw=%s out=%s padded=%s plain=%s rec=%s logrec=%s mutated=%d E=%s\n",
 				fs[1], hexOrDash(key), hexOrDash(raw), outcome, padded, plain, rec, logrec, mutated, oracle)
 		}
